@@ -590,8 +590,16 @@ fn analyze_inner(view: &View, cfg: &Cfg, script: &Script, quirks: Quirks, a: &mu
     }
 
     // ---- 11. credential arity
-    let Some(credential) = ascii_string(&credential_b) else {
-        return dc(Stage::Arity, "non-ASCII credential");
+    // The credential is text: header values are read as Latin-1 (one character per byte), query values as the UTF-8
+    // they were percent-encoded from. Splitting on '/' and comparing scope components with the (ASCII) expected
+    // values does not depend on that choice; what a non-ASCII *access key* means to the provider is left open.
+    let credential = match (ascii_string(&credential_b), carrier) {
+        (Some(c), _) => c,
+        (None, Carrier::Header) => credential_b.iter().map(|b| *b as char).collect::<String>(),
+        (None, Carrier::Query) => match String::from_utf8(credential_b.clone()) {
+            Ok(c) => c,
+            Err(_) => return dc(Stage::Arity, "credential is not UTF-8"),
+        },
     };
     a.credential = Some(credential.clone());
     let parts: Vec<&str> = credential.split('/').collect();
@@ -605,6 +613,9 @@ fn analyze_inner(view: &View, cfg: &Cfg, script: &Script, quirks: Quirks, a: &mu
     }
     if parts[1] != date || parts[2] != cfg.region || parts[3] != cfg.service || parts[4] != "aws4_request" {
         return rej(Stage::Scope, Kind::SignatureDoesNotMatch, Discr::Has("redential"));
+    }
+    if !parts[0].is_ascii() {
+        return dc(Stage::Provider, "non-ASCII access key");
     }
     let token = match token_b {
         None => None,
